@@ -210,6 +210,7 @@ PROPS = {
         ],
         "replays": [
             {"bin": "d7_record_hash_ttl", "finding": "D7"},
+            {"bin": "d18_nsec_order_ignores_types", "finding": "D18"},
         ],
         "explanation": "Names (Verus unit nameorder, real text of the provided methods of ToName in base/name/traits.rs, for every "
                        "implementor, i.e. every representation -- flat, compressed ParsedName, chain): name_eq == label-wise equality "
@@ -219,6 +220,10 @@ PROPS = {
                        "octet-wise order of the uncompressed wire forms and lowercase_composed_cmp == octet-wise order of the "
                        "canonical wire forms, with their unreachable!() arms proved unreachable for absolute names; "
                        "Label::composed_cmp / lowercase_composed_cmp (real text) == octet-wise order of the label's wire form. "
+                       "NSEC record data (rdata/dnssec.rs, real text of the PartialEq/PartialOrd/Ord/CanonicalOrd impls of Nsec and "
+                       "RtypeBitmap): == is (next names equal up to case, bitmaps identical), cmp/partial_cmp order by next name then "
+                       "bitmap and are Equal exactly on equal values, canonical_cmp == octet-wise order of the canonical RDATA "
+                       "(lemma: wire-form names are prefix-free). "
                        "Laws proved over the reference definitions the code is tied to: the name order is antisymmetric, "
                        "transitive, and Equal exactly on names that are name_eq (so order, equality and representation cannot "
                        "disagree). Labels, records (Kani on the compiled generic code, whose comparison code is written with "
@@ -231,7 +236,8 @@ PROPS = {
                        "ordering of record data per type versus canonical wire form, Record::canonical_cmp.",
         "assumptions": [
             "<[u8]>::eq_ignore_ascii_case (core): same length and octets equal after ASCII lower-casing",
-            "<[u8] as Ord>::cmp (core): left-justified octet-string order (axiom_slice_cmp_octets)",
+            "<[u8] as Ord>::cmp / PartialOrd::partial_cmp (core): left-justified octet-string order (axiom_slice_cmp_octets)",
+            "<[u8] as PartialEq>::eq (core): equality of the octet strings (axiom_slice_eq_octets)",
             "Ord for Label == RFC 4034 label order (iterator adapters; discharged on the compiled code by Kani c04_label_order_eq_hash_len63, thorough tier)",
             "Iterator::eq over label iterators with PartialEq for Label: element-wise ci equality and same number of elements",
             "ToName implementors: iter_labels() enumerates labels(), as_flat_slice() (when Some) is the concatenated wire form of labels(); labels are at most 63 octets; absolute names end with the only empty label (C03)",
